@@ -33,7 +33,7 @@ CEmpty == [
   \* executor
   scheduled |-> {}, polls |-> {}, done |-> {}, results |-> <<>>, fdropped |-> {}, needOf |-> <<>>, execGone |-> FALSE,
   \* loop signal
-  runBegan |-> FALSE, runBeganAt |-> 0, runRet |-> 0, iters |-> <<>>, blockOut |-> -2, stopCalls |-> {}, blockNeed |-> -1,
+  runBegan |-> FALSE, runBeganAt |-> 0, curBeganAt |-> 0, lastCheckAt |-> 0, polledAfterStop |-> FALSE, runRet |-> 0, iters |-> <<>>, blockOut |-> -2, stopCalls |-> {}, blockNeed |-> -1,
   loopScript |-> <<>>, sawRemove |-> FALSE, enabledNow |-> TRUE,
   stuck |-> FALSE, loopStuck |-> FALSE, occupied |-> -1, idleElapsed |-> -1, idleTimeout |-> -1,
   viol |-> {}
@@ -78,7 +78,8 @@ CUpd(sh0, ev) ==
                 LET cs == {c \in sh.calls : c.t = ev.t /\ c.op = "ping" /\ c.ret = 0} IN
                 [sh EXCEPT !.wroteAt = @ \cup {<<c.t, c.n, i>> : c \in cs}]
            [] ev.l = "ping.drain.after" -> [sh EXCEPT !.lastDrainAt = i]
-           [] ev.l = "loop.run.before_stop_check" \/ ev.l = "blockon.before_stop_check" -> [sh EXCEPT !.runBegan = TRUE, !.runBeganAt = IF sh.runBegan THEN @ ELSE i]
+           [] ev.l = "loop.run.before_stop_check" \/ ev.l = "blockon.before_stop_check" -> [sh EXCEPT !.runBegan = TRUE, !.runBeganAt = IF sh.runBegan THEN @ ELSE i,
+                                                                                                                  !.curBeganAt = IF @ = 0 THEN i ELSE @, !.lastCheckAt = i]
            [] OTHER -> sh
     [] ev.e = "cb" ->
          CASE sh.kind = "ping" -> [sh EXCEPT !.cbIdx = Append(@, i), !.cbDrain = Append(@, IF sh.lastDrainAt = 0 THEN i ELSE sh.lastDrainAt),
@@ -90,7 +91,7 @@ CUpd(sh0, ev) ==
     [] ev.e = "lcall" ->
          CASE ev.op \in {"dispatch", "idle_wait"} -> [sh EXCEPT !.inDisp = TRUE, !.cbThisDisp = 0, !.lastDrainAt = 0]
            [] ev.op = "schedule" -> [sh EXCEPT !.scheduled = @ \cup {<<ev.f, i>>}]
-           [] ev.op = "block_on" -> [sh EXCEPT !.blockNeed = ev.need, !.scheduled = @ \cup {<<0, i>>}]
+           [] ev.op = "block_on" -> [sh EXCEPT !.blockNeed = ev.need, !.scheduled = @ \cup {<<0, i>>}, !.curBeganAt = 0, !.lastCheckAt = 0]
            \* block_on(TimeoutFuture::from_duration(ms))
            [] ev.op = "block_on_timeout" -> [sh EXCEPT !.tfMs = ev.need]
            [] ev.op = "disable" -> [sh EXCEPT !.enabledNow = FALSE]
@@ -107,7 +108,11 @@ CUpd(sh0, ev) ==
                                                        !.tfElapsed = IF CHas(ev, "elapsed_us") THEN ev.elapsed_us ELSE 0]
            [] OTHER -> sh
     [] ev.e = "iter" -> [sh EXCEPT !.iters = Append(@, i)]
-    [] ev.e = "poll" -> [sh EXCEPT !.polls = @ \cup {<<ev.f, i, ev.woken>>}]
+    [] ev.e = "poll" -> [sh EXCEPT !.polls = @ \cup {<<ev.f, i, ev.woken>>},
+                                   \* block_on: the stop flag is read between the yield point "before_stop_check" and this poll; a
+                                   \* stop() of this block_on that had RETURNED before that yield point was therefore requested first
+                                   !.polledAfterStop = @ \/ (sh.blockNeed >= 0 /\ sh.curBeganAt > 0 /\
+                                        \E c \in sh.calls : c.op = "stop" /\ c.ret # 0 /\ c.at > sh.curBeganAt /\ c.ret < sh.lastCheckAt)]
     [] ev.e = "fdrop" -> [sh EXCEPT !.fdropped = @ \cup {ev.f}]
     [] ev.e = "stuck" -> [sh EXCEPT !.stuck = TRUE]
     [] ev.e = "loop_stuck" -> [sh EXCEPT !.loopStuck = TRUE]
@@ -211,6 +216,7 @@ SigEndViol(sh) ==
          {<<"C11", "block_on_did_not_complete_after_wakes">>})
      \cup CIf(usesBlockOn /\ sh.blockOut = 0 /\ completedPolls = {}, {<<"C11", "block_on_returned_output_of_incomplete_future">>})
      \cup CIf(usesBlockOn /\ sh.blockOut = -1 /\ sh.stopCalls = {}, {<<"C11", "block_on_returned_none_without_stop">>})
+     \cup CIf(usesBlockOn /\ sh.polledAfterStop, {<<"C11", "block_on_polled_the_future_although_stop_was_requested_first">>})
      \cup CIf(usesBlockOn /\ sh.polls = {} /\ sh.runRet # 0 /\ sh.stopCalls = {}, {<<"C11", "block_on_never_polled_the_future">>})
      \cup CIf(usesBlockOn /\ sh.stopCalls # {} /\ pair /\ sh.loopStuck, {<<"C11", "block_on_did_not_return_after_stop_and_wakeup">>})
      \cup CIf(usesRun /\ pair /\ (sh.loopStuck \/ sh.runRet = 0), {<<"C11", "run_did_not_return_after_stop_and_wakeup">>})
